@@ -168,7 +168,7 @@ func (x *c08X) hdrTotal(data []byte) string {
 		for _, pre := range []byte{0, 8, 20} {
 			in := append([]byte{pre}, data...)
 			if pv, st := c08Guard(func() { h(in) }); pv != nil {
-				x.viol("C08|repofuzz-header|panic|"+c08PanicClass(pv, st), fmt.Sprintf("fuzzing/header.Fuzz panicked: %v", pv), map[string]any{"fuzz_input_hex": c08Hex(in), "stack": st})
+				x.viol("C08|repofuzz-header|panic|"+c08FuzzClass(pv), fmt.Sprintf("fuzzing/header.Fuzz panicked: %v", pv), map[string]any{"fuzz_input_hex": c08Hex(in), "stack": st})
 			}
 			x.l.Count("repofuzz_header_calls", 1)
 		}
@@ -366,7 +366,9 @@ type c08GenHdr struct {
 	payload int // bytes after the packet number that belong to the packet
 }
 
-func c08CID(r *rand.Rand, n int) protocol.ConnectionID { return protocol.ParseConnectionID(c08Bytes(r, n)) }
+func c08CID(r *rand.Rand, n int) protocol.ConnectionID {
+	return protocol.ParseConnectionID(c08Bytes(r, n))
+}
 
 func c08GenLongHeaders(r *rand.Rand, nRandom int) []*ExtendedHeader {
 	var out []*ExtendedHeader
@@ -668,14 +670,18 @@ func TestVerifC08Headers(t *testing.T) {
 						b = append(b, 0)    // token length (Initial) / start of something else
 						b = append(b, 0x10) // length
 						b = append(b, c08Bytes(r, 40)...)
-						hdr, _, _, err := ParsePacket(b)
-						if err == nil {
-							x.viol("C08|header|out-of-range-accepted|connid-len-gt-20", fmt.Sprintf("ParsePacket accepted dcid len %d scid len %d: %+v", dl, sl, hdr), map[string]any{"hex": c08Hex(b)})
-						}
-						if which == 0 {
-							if _, err := ParseConnectionID(b, 8); err == nil {
-								x.viol("C08|header|out-of-range-accepted|connid-len-gt-20", fmt.Sprintf("ParseConnectionID accepted dcid len %d", dl), map[string]any{"hex": c08Hex(b)})
+						if pv, st := c08Guard(func() {
+							hdr, _, _, err := ParsePacket(b)
+							if err == nil {
+								x.viol("C08|header|out-of-range-accepted|connid-len-gt-20", fmt.Sprintf("ParsePacket accepted dcid len %d scid len %d: %+v", dl, sl, hdr), map[string]any{"hex": c08Hex(b)})
 							}
+							if which == 0 {
+								if _, err := ParseConnectionID(b, 8); err == nil {
+									x.viol("C08|header|out-of-range-accepted|connid-len-gt-20", fmt.Sprintf("ParseConnectionID accepted dcid len %d", dl), map[string]any{"hex": c08Hex(b)})
+								}
+							}
+						}); pv != nil {
+							x.viol("C08|header|panic|"+c08PanicClass(pv, st), fmt.Sprintf("panic: %v", pv), map[string]any{"hex": c08Hex(b), "stack": st})
 						}
 						l.Count("negative_tests_headers", 1)
 						x.c.Eval(fmt.Sprintf("neg|%s|t%d|w%d|%d", v, typ, which, bad))
